@@ -123,6 +123,17 @@ def check(run):
         run.broke('send_to_impl: local mtu not found (renamed?)')
     run.check(not mtud or q.render(st, mtud[0]['init']) == 'm_io_service.get_path_mtu(m_bound_to.address(), dst.address())', 'R4', 'df-mtu-source', st.norm, st.loc(),
               'mtu is not get_path_mtu(m_bound_to.address(), dst.address()) queried in this call', 'queried per send for (own, destination)')
+    # the path is looked up for the address the socket is bound to: on a never-bound socket the implicit bind comes first
+    # (the unspecified address 0.0.0.0 has no path of its own - a per-address-pair configuration answers with another MTU)
+    unbound_tests = [n_ for n_ in st.all_nodes() if q.cmp_atom(n_) and q.cmp_atom(n_)[0] in ('==', '!=') and
+                     any(q.render(st, q.strip_casts(y)).replace('this->', '') == 'm_bound_to' for y in q.cmp_atom(n_)[1:])]
+    mtu_calls = [c for c in st.calls() if (q.callee_name(c) or '').endswith('get_path_mtu') and any(x['k'] == 'member' and x.get('name') == 'm_bound_to' for a_ in c.get('args', []) for x in walk(a_))]
+    if not unbound_tests or not mtu_calls:
+        run.broke('send_to_impl: implicit-bind test (%d) or get_path_mtu(m_bound_to ...) (%d) not found' % (len(unbound_tests), len(mtu_calls)))
+    for c in mtu_calls:
+        run.check(q.any_precedes(st, unbound_tests, c), 'R4', 'mtu-of-the-bound-address', st.norm, st.loc(c),
+                  'get_path_mtu(m_bound_to.address(), ...) is evaluated before the implicit bind of a never-bound socket: its first datagram is checked against the path MTU of the unspecified address instead of the address it is sent from - with don\'t-fragment set, a datagram larger than the real path MTU goes out (or one that fits is discarded)',
+                  'the implicit bind precedes the MTU lookup')
     ifs = [n for n in st.all_nodes() if n['k'] == 'if' and 'm_dont_fragment' in q.render(st, n['cond'])]
     if len(ifs) != 1:
         run.violation('R5', 'df-test', st.norm, st.loc(), 'the don\'t-fragment test is missing (or duplicated): oversized datagrams are sent although the option is set')
